@@ -44,6 +44,8 @@ PATCHES = {
     "jmplab": ("jmp L2\nP2:", {"P2": 2}, "jmp"),
     "cfi": ("pushq %rax\n.cfi_adjust_cfa_offset 8\npopq %rax\n.cfi_adjust_cfa_offset -8", {}, None),
     "symexpr": ("movq L2(%rip), %rax", {}, None),
+    # two calls to the same function in ONE patch
+    "twocalls": ("call g\nnop\ncall g", {}, "call"),
     # a patch whose first block loops back to its own start
     "selfloop": ("PS:\ndecl %eax\njne PS", {"PS": 0}, "jcc"),
     # a RIP-relative operand FOLLOWED by an immediate (the PC-relative bias differs from the field's distance to the end of the
